@@ -55,6 +55,8 @@ THEOREMS = [
     "BeyondVerif.C19.j2_history_fresh",
     "BeyondVerif.C19.j2_history_eq_fresh_object",
     "BeyondVerif.C19.sso_tuned_in_place_node_rate",
+    "BeyondVerif.C19.betaAngle_eq",
+    "BeyondVerif.C19.beta_environment",
     "BeyondVerif.C19.beta_clip_in_domain",
     "BeyondVerif.C19.beta_arg_in_domain",
     "BeyondVerif.C19.beta_range",
@@ -66,7 +68,7 @@ THEOREMS = [
     "BeyondVerif.C19.bplane_B_norm",
 ]
 LEVEL_TEXT = ("Lean theorems over R about formulas translated from the Python source on every run (Stumpff functions, y, F, dF, A, f/g/gdot AND the head of _lambert - norms, cross "
-              "product, arccos, direction / way selection - of lambert.py; the three modes "
+              "product, arccos, direction / way selection - of lambert.py; the arithmetic of beta.py; the three modes "
               "of leo.sso; the three secular rates of propagators/j2.py, the text of the J2.orbit getter / setter, and Infos.n; raan2ltan/ltan2raan; raan/nu of both Walker classes) and about hand-written models of the "
               "Lambert loops, the Walker generators, beta and bplane that are tied to the code by a differential correspondence run: LTAN<->RAAN are exact inverses modulo "
               "day / 2 pi for any sun angle; Walker fleets have t satellites, evenly spaced planes, phasing 2 pi f / t; sso is self-inverse and makes the J2 node rate equal "
@@ -87,9 +89,9 @@ TECHNIQUE = "Lean 4 proof (ring / field_simp / floor arithmetic / induction on l
 TRUSTED = [
     "harness/py2lean.py + fn_def/Tr19 in harness/props/C19.py: translate the function bodies of lambert.py (_C,_S,_y,_F,_dF, A and f/g/gdot slices of _lambert), leo.py (three return expressions of sso), "
     "j2.py (com, dOmega), statevector.py (Infos.n), ltan.py (raan2ltan, ltan2raan), constellation.py (raan, nu of both classes) into Generated/{LambertFn,LeoFn,LtanFn,WalkerFn}{F,R}.lean on every run",
-    "lean/templates/Mission.tpl (hand-written: 3-vector algebra, scan and Newton loops, v0/v1 assembly, Walker generator loops, beta, bplane, the J2Obj state machine - its setter is the "
+    "lean/templates/Mission.tpl (hand-written: 3-vector algebra, scan and Newton loops, v0/v1 assembly, Walker generator loops, bplane, the J2Obj state machine - its setter is the "
     "unconditional copy that theorem j2_setter_unconditional reads off the regenerated setter text), tied by the correspondence run",
-    "TrSel / dtheta_def / accessor_stmts in harness/props/C19.py: the statements of _lambert before `A = ...` -> Generated/LambertFn.lamDthetaSrc (3-vectors as components, np.cross, np.linalg.norm, `@`, np.sign, "
+    "TrSel / dtheta_def / accessor_stmts in harness/props/C19.py: the statements of _lambert before `A = ...` -> Generated/LambertFn.lamDthetaSrc, the arithmetic of beta() -> Generated/BetaFn.betaSrc (+ the surrounding object-access statements as text, betaEnv) (3-vectors as components, np.cross, np.linalg.norm, `@`, np.sign, "
     "if/elif); the unparsed statements of the J2.orbit getter and setter -> Generated/LeoFn.j2OrbitGetter / j2OrbitSetter",
     "numpy / libm double arithmetic vs R: tolerance 1e-9 relative (1e-7 (1 + 0.01/dE^2) on Lambert velocities after the iteration, whose exit criterion is an absolute 1e-8 in z = dE^2), Walker fleets bit-exact",
 ]
@@ -115,7 +117,7 @@ NOT_COVERED = [
     "correspondence and the sso-sequence oracle, not translated from the source (C05's anchor)",
 ]
 OPEN = [
-    "beta and bplane models are hand-written; tied to the code by correspondence only (TrSel of this module would translate them - done for the head of _lambert only)",
+    "the bplane model is hand-written; tied to the code by correspondence only (TrSel of this module translates the head of _lambert and the arithmetic of beta; bplane needs vector-valued expressions)",
     "at cr[2] = 0 the request cannot be 'matched' (a polar transfer is neither pro- nor retrograde): what is proved there is that a proper angle is chosen and that the two requests are the two ways round",
     "sso i -> a -> i and i -> e -> i round trips (modes starting from an inclination) are checked by the oracle only",
 ]
@@ -194,6 +196,48 @@ class TrSel(py2lean.TrFn):
                 raise py2lean.Untranslatable("@ of non-vectors")
             return "(" + " + ".join(f"({x} * {y})" for x, y in zip(a, b)) + ")"
         return super().expr(e)
+
+    def vec_of(self, node):
+        if isinstance(node, ast.Call) and self.dotted(node.func) in ("np.asarray", "numpy.asarray") and len(node.args) == 1 and not isinstance(node.args[0], (ast.List, ast.Tuple)):
+            v = self.vec_of(node.args[0])
+            if v is not None:
+                return v
+        return super().vec_of(node)
+
+
+def is_env_stmt(s):
+    """a statement that fetches the numbers from objects (method calls on something else than numpy / math, isinstance dispatch):
+    outside the expression language - kept as text"""
+    if isinstance(s, ast.If) and any(isinstance(n, ast.Call) and isinstance(n.func, ast.Name) and n.func.id == "isinstance" for n in ast.walk(s.test)):
+        return True
+    for n in ast.walk(s):
+        if isinstance(n, ast.Call) and isinstance(n.func, ast.Attribute):
+            root = n.func
+            while isinstance(root, ast.Attribute):
+                root = root.value
+            if not (isinstance(root, ast.Name) and root.id in ("np", "numpy", "math")):
+                return True
+    return False
+
+
+def beta_def(path):
+    """`beta(orb, ref)`: the arithmetic on the cartesian state `orb` (6-vector) and the position `ref_pos` (3-vector) as
+    `betaSrc`; the statements that obtain these two from the objects as the text list `betaEnv`"""
+    fn = py2lean.find_function(ast.parse(open(path).read()), "beta")
+    stmts = [s for s in fn.body if not (isinstance(s, ast.Expr) and isinstance(s.value, ast.Constant))]
+    env = [ast.unparse(s) for s in stmts if is_env_stmt(s)]
+    tr = TrSel(funcs={"clip": "clipR"})
+    tr.vecs = {"orb": ["px", "py", "pz", "vx", "vy", "vz"], "ref_pos": ["rx", "ry", "rz"]}
+    body = tr.stmts([s for s in stmts if not is_env_stmt(s)])
+    return (f"def betaSrc (px py pz vx vy vz rx ry rz : R) : R :=\n{py2lean.indent(body)}\n\n"
+            "/-- the statements of `beta` outside the arithmetic: where the state and the position of the body come from -/\n"
+            f"def betaEnv : List String := {lean_strs(env)}\n")
+
+
+CLIP_PRELUDE = """/-- `np.clip(x, lo, hi)` (a NaN passes through, as in numpy) -/
+def clipR (x lo hi : R) : R := if x < lo then lo else if x > hi then hi else x
+
+"""
 
 
 def dtheta_def(path):
@@ -275,6 +319,7 @@ def extract(ctx):
         fn_def(W, "WalkerDelta.nu", ["planes", "raan0", "per_plane", "spacing", "i_plane", "i_sat"], "deltaNu", consts=cs, funcs={"self.raan": "deltaRaan planes raan0"}),
     ])
     ch += py2lean.instantiate(core.LEAN, "WalkerFn", body, "beyond/utils/constellation.py")
+    ch += py2lean.instantiate(core.LEAN, "BetaFn", CLIP_PRELUDE + beta_def(src("utils", "beta.py")), "beyond/utils/beta.py")
     ch += instantiate.main()
     return ch
 
@@ -808,7 +853,9 @@ def run_j2_history(el0, ops):
     toks, outs = [], []
     for op in ops:
         if op[0] == "P":
-            res = orb.propagate(timedelta(seconds=op[1])).copy(form="keplerian_mean")
+            # both branches of `if type(date) is timedelta` in J2.propagate: a span, or the absolute date that span leads to
+            arg = timedelta(seconds=op[1]) if (len(toks) + len(outs)) % 3 else orb.date + timedelta(seconds=op[1])
+            res = orb.propagate(arg).copy(form="keplerian_mean")
             outs.append([float(x) for x in res] + [(res.date - d0).total_seconds()])
             toks += ["P", f2b(op[1])]
         elif op[0] == "S":
@@ -876,7 +923,8 @@ def check_helper_histories(out, rng):
 
 def gen_date(rng):
     from beyond.dates import Date
-    return Date(rng.randint(1995, 2035), rng.randint(1, 12), rng.randint(1, 28), rng.randint(0, 23), rng.randint(0, 59), rng.randint(0, 59), rng.randint(0, 999999))
+    return Date(rng.randint(1995, 2035), rng.randint(1, 12), rng.randint(1, 28), rng.randint(0, 23), rng.randint(0, 59), rng.randint(0, 59), rng.randint(0, 999999),
+                scale=rng.choice(["UTC", "UTC", "TAI", "TT"]))
 
 
 def circ(a, b, m):
